@@ -5,6 +5,7 @@ from jax import numpy as jnp
 from gaussian_toolbox import conditional, factor, measure, pdf
 
 from . import alphabet as al
+from . import refmodel as rm
 
 J = jnp.asarray
 
@@ -18,6 +19,31 @@ HARD = 50  # value index of the "hard but legal" catalogue entries (cond ~1e3, s
 def idx(dims, k=0):
     """An index argument in one of the accepted array types (jnp int64, NumPy, jnp int32), chosen by k."""
     return [lambda: jnp.array(dims), lambda: np.array(dims), lambda: jnp.array(dims, dtype=jnp.int32), lambda: np.array(dims, dtype=np.int32)][k % 4]()
+
+
+def call_matches(ctx, site, got, ref_ln, facts=None, lscale=1.0):
+    """The density form (__call__/evaluate) against exp(reference log-value), where that is representable; a NaN/inf
+    where the reference is finite is a violation even if the value under/overflows.  lscale: size of the terms whose
+    difference ln f is (x'Lambda x/2 for a mean far from the origin) -- an absolute error 1e-8*lscale of ln f is a
+    relative error of that size in f."""
+    got = np.asarray(got, float)
+    ref_ln = np.asarray(ref_ln, float)
+    if got.shape != ref_ln.shape:
+        return ctx.close(site, got, ref_ln, facts=facts)
+    with np.errstate(over="ignore", under="ignore"):
+        ref = np.exp(np.clip(ref_ln, -745.0, 709.0))
+    rep = np.abs(ref_ln) < 600.0
+    g2 = np.where(rep | ~np.isfinite(got), got, ref)
+    return ctx.close(site, g2, ref, scale=float(np.max(ref)) if ref.size else 1.0, tol=1e-7 * max(1.0, float(lscale)), facts=facts)
+
+
+def ln_scale(x, Sig):
+    """max over points and components of x'Sigma^-1 x/2: the natural scale of ln p(x)."""
+    out = 1.0
+    for S in np.asarray(Sig):
+        L = np.linalg.inv(S)
+        out = max(out, float(np.max(0.5 * np.einsum("ni,ij,nj->n", x, L, x))))
+    return out
 
 
 def spd_batch(D, R, vi, seed=None, tag=(), diag=False, thin=True):
@@ -327,6 +353,40 @@ def pdf_variants(kind, Sig, mu, which=("fresh", "Sigma+Lambda", "Sigma+Lambda+ln
             Sig_e = np.array([S_[r] for r in range(Rc) for n in range(2)])
             ck = "diag" if "Diag" in kind else "full"
             out.append((w, lambda: mk_cond(ck, M, bb, S_)[0].condition_on_x(J(X)), mu_e, Sig_e))
+        elif w in ("hadamard_onerank", "multiply_onerank"):
+            # this density (cached covariance) x a rank-one factor with an explicit gain og != 1, covariance update requested
+            # (Sherman-Morrison shortcut), then get_density(); hadamard: one factor entry per component, multiply: one entry
+            Rf = R if w == "hadamard_onerank" else 1
+            ov = np.array([al.int_vector(D, salt=j + 2) * 0.5 + 0.25 for j in range(Rf)])
+            og = np.array([0.7 + 0.6 * j for j in range(Rf)])
+            onf = np.array([al.int_vector(D, salt=j + 5) * 0.5 for j in range(Rf)])
+            omu_e, oSig_e = [], []
+            for r in range(R):
+                j = r if Rf > 1 else 0
+                Lr = np.linalg.inv(Sig[r])
+                Se = np.linalg.inv(Lr + og[j] * np.outer(ov[j], ov[j]))
+                oSig_e.append(0.5 * (Se + Se.T))
+                omu_e.append(Se @ (Lr @ mu[r] + onf[j]))
+
+            def b(w=w, ov=ov, og=og, onf=onf, Rf=Rf):
+                f = factor.OneRankFactor(v=J(ov), g=J(og), nu=J(onf), ln_beta=J(np.linspace(0.2, -0.3, Rf)))
+                p0 = mk_pdf(kind, Sig, mu)
+                return (p0.hadamard(f, update_full=True) if w == "hadamard_onerank" else p0.multiply(f, update_full=True)).get_density()
+            out.append((w, b, np.array(omu_e), np.array(oSig_e)))
+        elif w == "joint_of_cond" and D >= 2:
+            # the joint density produced by a linear conditional p(x2|x1) applied to priors p_r(x1) (layout 1 x R)
+            Dx = D // 2
+            ia, ib = list(range(Dx, D)), list(range(Dx))
+            jM, jb, jS = rm.conditional(mu[0], Sig[0], ia, ib)
+            jM = jM + al.int_matrix(D - Dx, Dx, salt=3) * 0.5  # a non-zero regression matrix whatever the catalogue entry
+            jmx = np.array([mu[r][ib] for r in range(R)])
+            jSx = np.array([Sig[r][np.ix_(ib, ib)] for r in range(R)])
+            je = [rm.joint(jmx[r], jSx[r], jM, jb, jS) for r in range(R)]
+            ck = "diag" if "Diag" in kind else "full"
+            jSc = np.diag(np.diag(jS)) if ck == "diag" else jS
+            if ck == "diag":
+                je = [rm.joint(jmx[r], jSx[r], jM, jb, jSc) for r in range(R)]
+            out.append((w, lambda jM=jM, jb=jb, jSc=jSc, jmx=jmx, jSx=jSx, ck=ck: mk_cond(ck, jM[None], jb[None], jSc[None])[0].affine_joint_transformation(mk_pdf(kind, jSx, jmx)), np.array([j[0] for j in je]), np.array([j[1] for j in je])))
         elif w in ("prod_linear", "prod_constant") and R % 2 == 0 and R >= 2:
             Rc = R // 2
             S_, m_ = Sig[::2], mu[::2]
